@@ -140,6 +140,10 @@ func (p *PauseController) Wait() (PauseWaitAction, string) {
 			switch state, stopMessage := p.stateAndStopMessage(); state {
 			case PauseStateStopped:
 				return PauseWaitActionStopped, stopMessage
+			case PauseStatePaused:
+				// Paused again before we got to look: keep holding the request
+				// rather than letting it through while the service is paused.
+				return p.Wait()
 			default:
 				return PauseWaitActionProceed, ""
 			}
